@@ -537,7 +537,8 @@ class TypeInstance(Type):
                 return False
             if b.upper and not a.operator.subtype(b.upper):
                 return False
-            if b.lower and (b.lower.subtype(a.operator) is False):
+            if not subtype and b.lower \
+                    and (b.lower.subtype(a.operator) is False):
                 return False
             if accept_wildcard and b.wildcard:
                 return True
@@ -548,7 +549,8 @@ class TypeInstance(Type):
                 return False
             if a.lower and not a.lower.subtype(b.operator):
                 return False
-            if a.upper and (a.upper.subtype(b.operator) is False):
+            if not subtype and a.upper \
+                    and (a.upper.subtype(b.operator) is False):
                 return False
             if accept_wildcard and a.wildcard:
                 return True
